@@ -32,6 +32,7 @@ CONSTANTS MaxK,        \* components write 0..MaxK chunks
           MaxReq,      \* requests per sequence (the pool is the only state carried over)
           Variant,     \* "asCoded" | "noReset" | "headersFirst" | "bufferInErrorPath" | "statusInErrorPath"
                        \* | "nilFallsThrough" | "silentOnCanceled" (errors.Is(err, context.Canceled) => plain return)
+                       \* | "sseStreams" (a text/event-stream content type routes to ServeHTTPStreamed without WithStreaming)
           EmitEdges
 
 VARIABLES req,    \* configuration + component of the request being served
@@ -47,7 +48,10 @@ VARIABLES req,    \* configuration + component of the request being served
 vars == <<req, pc, rw, buf, i, rerr, pool, n>>
 
 Statuses     == {0, 201, 404}                                   \* 0 = WithStatus not used
-CTypes       == {"default", "custom"}                           \* text/html; charset=utf-8 | WithContentType
+\* content-type classes: WithContentType not used | "text/html; charset=utf-8" given explicitly | application/json |
+\* text/event-stream | the empty string.  handler.go only copies the value into the header: which path serves the request
+\* (buffered / streamed) depends on the streaming option alone.
+CTypes       == {"default", "htmlcharset", "json", "eventstream", "empty"}
 EHKinds      == {"unset", "statusbody", "bodyonly", "nothing", "headers", "nilhandler"}
 NoHdr        == "absent"
 
@@ -117,7 +121,7 @@ Step(name) == lbl' = [a |-> name]
 
 (* --- ServeHTTP dispatch --- *)
 Dispatch == /\ pc = "start"
-            /\ pc' = IF req.stream THEN "s_setct" ELSE "b_get"
+            /\ pc' = IF req.stream \/ (Variant = "sseStreams" /\ req.ctype = "eventstream") THEN "s_setct" ELSE "b_get"
             /\ UNCHANGED <<req, rw, buf, i, rerr, pool, n>>
             /\ Step("Dispatch")
 
@@ -297,6 +301,10 @@ AbortedSendsNothing ==
     (pc \in {"done", "finished"} /\ ~req.stream /\ rw.aborted) =>
         /\ req.fail /\ req.eh = "nilhandler"
         /\ ~rw.wrote /\ rw.body = <<>>
+
+\* the buffered / streamed decision depends on the streaming option only, whatever the content type
+StreamPCs == {"s_setct", "s_status", "s_render", "s_err_default", "s_err_setct", "s_err_eh"}
+StreamedOnlyIfConfigured == (pc \in StreamPCs) <=> (req.stream /\ pc \notin {"start", "done", "finished"})
 
 \* the mechanism: the ResponseWriter is untouched until the component has returned
 UntouchedWhileRendering == (~req.stream /\ pc \in {"b_get", "b_render"}) => rw = FreshRW
